@@ -165,6 +165,14 @@ def main():
                 rep["anchor_checks"] += 1
                 if not rel(gv, w):
                     bad("anchor:%s" % nm, dict(got=float(gv), want=float(w), par=par, suf=suf))
+            # ... and three times the requirement is three times the population (nothing is capped on the way)
+            q3 = Food(3 * req.kcals, 3 * req.fat, 3 * req.protein, "billion kcals" + suf, "thousand tons" + suf, "thousand tons" + suf)
+            b3, p3 = q3.in_units_billions_fed(), q3.in_units_percent_fed()
+            for nm, gv, w in (("billions", b3.kcals, 3 * par["POP"] / 1e9), ("billions", b3.fat, 3 * par["POP"] / 1e9), ("billions", b3.protein, 3 * par["POP"] / 1e9),
+                              ("percent", p3.kcals, 300), ("percent", p3.fat, 300), ("percent", p3.protein, 300)):
+                rep["anchor_checks"] += 1
+                if not rel(gv, w):
+                    bad("anchor:%s:above-need" % nm, dict(got=float(gv), want=float(w), par=par, suf=suf))
             bk = pf.in_units_bil_kcals_thou_tons_thou_tons_per_month()
             if not (rel(bk.kcals, req.kcals) and rel(bk.fat, req.fat) and rel(bk.protein, req.protein)):
                 bad("anchor:back_to_base", dict(par=par))
